@@ -8,10 +8,15 @@ they came through `from_slice`.
 * `a + b`, `a - b` (all four reference forms have the same body): `self.point() ± other.point()`, then `compress()`.
 * `sk * &pk`, `&sk * &pk`, `pk * &sk`: `scalar * point()`, then `compress()`.
 * `PublicKey::from_private_key`: `&scalar * ED25519_BASEPOINT_TABLE`, then `compress()`.
-* `sk + sk`, `sk * sk`, `sk * u8`: dalek `Scalar` addition / multiplication = arithmetic modulo `l` on the little-endian value,
-  result stored reduced.
-Point arithmetic is that of curve25519-dalek (a dependency); it is modelled by the extended-coordinate formulas of
-`Ref/Ed25519.lean` followed by the RFC 8032 compression, which is what dalek's `compress` of the same group element gives. -/
+* `sk + sk`, `sk * sk`, `sk * u8`: dalek `Scalar` addition / multiplication, transcribed at the level of the integer value of
+  the five 52-bit limbs (`UnpackedScalar` = `Scalar52`, backend/serial/u64/scalar.rs): `add` = limb-wise sum then `sub(sum, L)`
+  (a borrow-and-add-back subtraction, which reduces only when the operands are reduced); `mul` = two Montgomery reductions
+  (`montgomery_reduce(mul_internal(a, b))`, then the same with `RR = R² mod l`, `R = 2^260`). That these compute the sum /
+  product modulo `l` ON ACCEPTED KEYS is a theorem (`Proofs/KeyOps.lean`), not the definition.
+Point arithmetic is that of curve25519-dalek (a dependency). It is NOT modelled independently: `keyAdd/keySub/keySmul/keyPubOf`
+call the extended-coordinate formulas `Ed.add/Ed.sub/Ed.smul` and the compression `Ed.encodePt` of the reference
+`Ref/Ed25519.lean` — the same functions the spec side of the driver calls. What is the model's own is the operand path
+(`point()` = the permissive decompression of the STORED bytes, no strict decoding, `none` = panic). -/
 namespace Monero.Keys
 open Ed
 
@@ -44,12 +49,34 @@ def keySmul (s k : Bytes) : Option Bytes :=
 /-- `PublicKey::from_private_key` -/
 def keyPubOf (s : Bytes) : Bytes := keyOfPoint (Ed.smul (Ed.leNat s) Ed.G)
 
-/-- `Add for PrivateKey` (four forms): `self.scalar + other.scalar` -/
-def scalarAdd (a b : Bytes) : Bytes := Ed.toBytesLE ((Ed.leNat a + Ed.leNat b) % l) 32
-/-- `Mul<PrivateKey> for PrivateKey`: `self.scalar * other.scalar` -/
-def scalarMul (a b : Bytes) : Bytes := Ed.toBytesLE ((Ed.leNat a * Ed.leNat b) % l) 32
-/-- `Mul<u8> for PrivateKey`: `self.scalar * Scalar::from(other)` -/
-def scalarMulU8 (a : Bytes) (n : Nat) : Bytes := Ed.toBytesLE ((Ed.leNat a * (n % 256)) % l) 32
+/-! ### dalek `Scalar52` arithmetic on the integer value of the limbs -/
+/-- the Montgomery radix: five 52-bit limbs -/
+def R260 : Nat := 2 ^ 260
+/-- `Scalar52::sub(a, b)` (a, b < 2^260): limb-wise difference modulo 2^260 with a borrow chain; when the last borrow is
+set (a < b) the constant `L` is added back, again limb-wise modulo 2^260 -/
+def sc52Sub (a b : Nat) : Nat :=
+  let diff := (a + R260 - b) % R260
+  if a < b then (diff + l) % R260 else diff
+/-- `Scalar52::add(a, b)`: limb-wise sum with carries (the top carry is dropped: 260 bits), then `sub(sum, L)` -/
+def sc52Add (a b : Nat) : Nat := sc52Sub ((a + b) % R260) l
+/-- `−l⁻¹ mod 2^260`; dalek's `LFACTOR` is its lowest limb (`lFactor % 2^52 = 0x51da312547e1b`), applied limb by limb -/
+def lFactor : Nat := 1460841127323026145909195535181282744217281446807063794674545094323019697126939
+/-- `constants::RR` = `R² mod l` (the value of the five limbs in constants.rs) -/
+def scRR : Nat := 4185850391763183796333492317919282507600454137915443218209456916606550724923
+/-- `Scalar52::montgomery_reduce(x)` on the integer value of the 9-limb product: `m = x·(−l⁻¹) mod R`, `(x + m·l) / R`
+(exact division), then `sub(·, L)` -/
+def montReduce (x : Nat) : Nat :=
+  let m := (x % R260) * lFactor % R260
+  sc52Sub ((x + m * l) / R260) l
+/-- `Scalar52::mul(a, b)`: `montgomery_reduce(a·b)` then `montgomery_reduce(ab · RR)` -/
+def sc52Mul (a b : Nat) : Nat := montReduce (montReduce (a * b) * scRR)
+
+/-- `Add for PrivateKey` (four forms): `self.scalar + other.scalar` = `UnpackedScalar::add(unpack, unpack).pack()` -/
+def scalarAdd (a b : Bytes) : Bytes := Ed.toBytesLE (sc52Add (Ed.leNat a) (Ed.leNat b)) 32
+/-- `Mul<PrivateKey> for PrivateKey`: `self.scalar * other.scalar` = `UnpackedScalar::mul(unpack, unpack).pack()` -/
+def scalarMul (a b : Bytes) : Bytes := Ed.toBytesLE (sc52Mul (Ed.leNat a) (Ed.leNat b)) 32
+/-- `Mul<u8> for PrivateKey`: `self.scalar * Scalar::from(other)` (`Scalar::from(n: u8)` = the bytes `[n, 0, …, 0]`; `n < 256`) -/
+def scalarMulU8 (a : Bytes) (n : Nat) : Bytes := Ed.toBytesLE (sc52Mul (Ed.leNat a) n) 32
 
 /-- the harness operations: `from_slice` on each operand (`none` = an operand is refused), then the operator
 (`some none` = the operator panics) -/
